@@ -150,7 +150,8 @@ def _cell_min(cell: Dict[str, Any]) -> int:
 
 def _no_width_pressure(an: Dict[str, Any], cols, W: int) -> bool:
     """True when all cells are plain text, no column has a ratio, and the table at its natural width
-    (widest line of every column, capped by an explicit max_width / width on the *content*) fits W."""
+    (widest line of every column, capped by an explicit max_width / width on the *content*) fits W
+    (W = what the table may use: the console width, or the table's own explicit `width` when that is smaller)."""
     from vf.rtc.specnative import cells as _cc
 
     total = an["extra"]
@@ -529,7 +530,7 @@ def check_case(desc: Dict[str, Any], W: int) -> Tuple[Dict[str, int], List[Dict[
                 exp = _cell_markers(cell)
                 got = per_cell.get((i, j), [])
                 if exp != got:
-                    if widths[j] < need_w[j] and _no_width_pressure(an, cols, W):
+                    if widths[j] < need_w[j] and _no_width_pressure(an, cols, W if width is None else min(W, width)):
                         # every column's natural width fits: nothing forces the solver to shrink anything, so a
                         # starved column here is NOT the recorded solver limitation (known finding) but something
                         # else (e.g. a cap applied to padding + content instead of content)
